@@ -7,5 +7,5 @@ CONSTANTS
 INIT Init11
 NEXT Next11
 INVARIANTS ListedIsAddressable ListShowsExactly ViewsAgreeOnSizeType StaysInRoot
-PROPERTIES ForksTravel NewFolderNeverReplaces OpsChangeExactly
+PROPERTIES ForksTravel ForksStay NewFolderNeverReplaces OpsChangeExactly
 CHECK_DEADLOCK FALSE
